@@ -221,6 +221,7 @@ def run(repo, res, tier):
     res.rule("EQ-E", "set-typed attributes are not converted to sequences before comparison", 10)
     res.rule("EQ-I", "ordered sequences of objects are not reduced to sets before comparison", 2)
     res.rule("EQ-J", "attributes rounded for equality are rounded for the hash", 1)
+    res.rule("EQ-K", "both sides of a comparison in __eq__ are computed alike", 10)
     res.rule("EQ-F", "element-wise matching of a collection of self against other's is two-sided (sizes compared)", 2)
     res.rule("EQ-G", "__hash__ is order-insensitive wherever __eq__ is", 3)
     res.rule("EQ-H", "__eq__ compares exactly (on the same canonical form __hash__ uses): no tolerance-based comparison", 30)
@@ -308,6 +309,35 @@ def run(repo, res, tier):
                         % (witness,),
                     )
 
+        # ---------------- EQ-K: both sides of a comparison are brought into the same form.  Where the compared values are
+        # computed from self.x and other.x (rounded, formatted, converted), the two computations are the same up to
+        # self / other: a conversion applied on one side only makes x == x (or x == copy(x)) fail for some values.
+        if eq is not None:
+            from ..core import canon as _canon
+            import re as _re
+
+            me_, ot_ = eq.args.args[0].arg, eq.args.args[1].arg
+            rd_ = ReachingDefs(eq)
+
+            def shape(e, at):
+                t = _canon(e, rd_, at, [me_, ot_])
+                t = _re.sub(r"\b(%s|%s)\._?([A-Za-z_][A-Za-z0-9_]*)" % (_re.escape(me_), _re.escape(ot_)), lambda m_: "OBJ__." + m_.group(2).lstrip("_"), t)
+                return t
+
+            for n in walk_no_nested(eq):
+                if not (isinstance(n, ast.Compare) and len(n.ops) == 1 and isinstance(n.ops[0], (ast.Eq, ast.NotEq))):
+                    continue
+                L, R = n.left, n.comparators[0]
+                st_ = n
+                while st_ is not None and not isinstance(st_, ast.stmt):
+                    st_ = mod.parent.get(st_)
+                try:
+                    a_, b_ = shape(L, st_), shape(R, st_)
+                except Exception:
+                    continue
+                if "OBJ__." not in a_ or "OBJ__." not in b_ or not any(isinstance(x, ast.Call) for x in ast.walk(ast.parse(a_, mode="eval"))) and not any(isinstance(x, ast.Call) for x in ast.walk(ast.parse(b_, mode="eval"))):
+                    continue
+                res.check("EQ-K", "%s.__eq__: %s and %s are computed alike" % (cname, norm(L)[:40], norm(R)[:40]), a_ == b_, mod, n, "%s.__eq__: %s vs %s" % (cname, a_[:90], b_[:90]), "the two sides of the comparison are brought into different forms (a conversion / rounding on one side only): an object can be unequal to itself or to its copy", qualname="%s.__eq__" % cname)
         # ---------------- EQ-B (per class whose equality resolves to this __eq__)
         if eq is not None:
             other_name = eq.args.args[1].arg
